@@ -393,21 +393,28 @@ impl Prop for C19 {
   fn run(&self, env: &Env, _t: &str, shard: usize, nshards: usize, out: &mut Out) {
     let ev = |e: &Env, o: &mut Out, s: &str, cs: &Case| self.eval(e, o, s, cs);
     if shard == 0 {
+      let mut rev = Reverse::new(1);
+      let mut both = |o: &mut Out, sub: &str, a: &[i64]| {
+        run_case(env, o, sub, &Case::ints(a), &ev);
+        rev.note(sub, &Case::ints(a));
+      };
       for s in 0..10 {
-        run_case(env, out, "stem", &Case::ints(&[s]), &ev);
+        both(out, "stem", &[s]);
         for t in 0..10 {
-          run_case(env, out, "stem_pair", &Case::ints(&[s, t]), &ev);
+          both(out, "stem_pair", &[s, t]);
         }
         for b in 0..12 {
-          run_case(env, out, "stem_branch", &Case::ints(&[s, b]), &ev);
+          both(out, "stem_branch", &[s, b]);
         }
       }
       for b in 0..12 {
-        run_case(env, out, "branch", &Case::ints(&[b]), &ev);
+        both(out, "branch", &[b]);
       }
       for p in 0..60 {
-        run_case(env, out, "pillar", &Case::ints(&[p]), &ev);
+        both(out, "pillar", &[p]);
       }
+      // the same finite spaces once more in the opposite order (answers must not depend on what was asked before)
+      rev.run(env, out, &ev);
       run_case(env, out, "misc", &Case::ints(&[0]), &ev);
       for m in 1..=12i64 {
         for d in 1..=month_len_nominal(2024, m) {
